@@ -14,6 +14,7 @@ PROGS = {
     "B_1": [WAU + RAU, RAU + WAU], "B_2": [WAU + TRAU, TWAU + RAU],
     "C_WWR": [WAU, WAU, RAU], "C_WRR": [WAU, RAU, RAU], "C_WWW": [WAU, WAU, WAU], "C_WRT": [WAU, RAU, TWAU],
     "E_1": [WAU + RAU, RAU + WAU, TWAU + TRAU], "F_WWRR": [WAU, WAU, RAU, RAU],
+    "G_RWRT": [RAU, WAU, RAU, TWAU], "G_WWRT": [WAU, WAU, RAU, TRAU],
 }
 AR, RR, RELR = ("Acquire", "Relaxed"), ("Relaxed", "Relaxed"), ("Release", "Relaxed")
 DEFAULT_ORD = {
@@ -156,6 +157,10 @@ def run(tier):
             ("dfs_try", {"progs": PROGS["B_2"], "preempt": 2, "max_runs": 1500, "spur": 1, "eintr": 0, "weak": 1}),
             ("dfs_wwr", {"progs": PROGS["C_WWR"], "preempt": 2, "max_runs": 2500, "spur": 0, "eintr": 0, "weak": 0}),
             ("dfs_wrr", {"progs": PROGS["C_WRR"], "preempt": 2, "max_runs": 2500, "spur": 0, "eintr": 0, "weak": 0}),
+            # try variants against a word with a holder and both waiting bits (needs 4 threads)
+            ("dfs_www", {"progs": PROGS["C_WWW"], "preempt": 1, "max_runs": 600, "spur": 0, "eintr": 0, "weak": 0}),
+            ("dfs_rwrt", {"progs": PROGS["G_RWRT"], "preempt": 1, "max_runs": 600, "spur": 0, "eintr": 0, "weak": 0}),
+            ("dfs_wwrt", {"progs": PROGS["G_WWRT"], "preempt": 1, "max_runs": 600, "spur": 0, "eintr": 0, "weak": 0}),
             ("rnd4", {"progs": [WAU + RAU, RAU + WAU, TWAU + RAU, RAU + TRAU], "runs": 200, "spur": 1, "eintr": 1, "weak": 1}),
         ]
     else:
@@ -170,6 +175,9 @@ def run(tier):
             ("dfs_wwr", {"progs": PROGS["C_WWR"], "preempt": 3, "max_runs": 30000, "spur": 0, "eintr": 0, "weak": 0}),
             ("dfs_wrr", {"progs": PROGS["C_WRR"], "preempt": 3, "max_runs": 30000, "spur": 0, "eintr": 0, "weak": 0}),
             ("dfs_wwrr", {"progs": PROGS["F_WWRR"], "preempt": 2, "max_runs": 30000, "spur": 0, "eintr": 0, "weak": 0}),
+            ("dfs_www", {"progs": PROGS["C_WWW"], "preempt": 3, "max_runs": 20000, "spur": 0, "eintr": 0, "weak": 0}),
+            ("dfs_rwrt", {"progs": PROGS["G_RWRT"], "preempt": 2, "max_runs": 20000, "spur": 0, "eintr": 0, "weak": 0}),
+            ("dfs_wwrt", {"progs": PROGS["G_WWRT"], "preempt": 2, "max_runs": 20000, "spur": 0, "eintr": 0, "weak": 0}),
             ("rnd4", {"progs": [WAU + RAU, RAU + WAU, TWAU + RAU, RAU + TRAU], "runs": 4000, "spur": 1, "eintr": 1, "weak": 1}),
         ]
     stress = {"threads": 4, "sections": 1500} if tier == "quick" else {"threads": 8, "sections": 10000}
